@@ -1031,6 +1031,20 @@ func injectConcretiseEnt(e *injectEnt, id, pos int) {
 	e.Conc = c
 }
 
+// injectSpecialState describes a symlink / pipe without following or opening it.
+func injectSpecialState(p string) string {
+	fi, err := os.Lstat(p)
+	if err != nil {
+		return "absent"
+	}
+	st := fi.Mode().Type().String()
+	if fi.Mode()&os.ModeSymlink != 0 {
+		t, _ := os.Readlink(p)
+		st += " -> " + t
+	}
+	return st
+}
+
 func injectEntPath(dir string, e *injectEnt) string {
 	if e.Kind == "subdir" || e.Kind == "subdirgo" {
 		return filepath.Join(dir, e.Conc.Name, "inner.go")
@@ -1100,6 +1114,21 @@ func injectDirsCmd(args []string) error {
 					panic(err)
 				}
 			}
+			// every other directory also holds entries that are neither regular files nor directories and sort before
+			// everything else: a dangling symlink, one with a .go name (a per-file fault: it cannot be read), a symlink
+			// to a sub-directory and a named pipe. They are not processable, must stay what they are and must not
+			// stop the other files from being processed.
+			specials := map[string]string{}
+			if v.ID%2 == 0 {
+				os.Symlink("no-such-target", filepath.Join(dir, "a0_dangling"))
+				os.Symlink("no-such-target.go", filepath.Join(dir, "a1_dangling.go"))
+				os.MkdirAll(filepath.Join(dir, "zz_realdir"), 0o755)
+				os.Symlink("zz_realdir", filepath.Join(dir, "a2_dirlink"))
+				syscall.Mkfifo(filepath.Join(dir, "a3_pipe"), 0o644)
+				for _, n := range []string{"a0_dangling", "a1_dangling.go", "a2_dirlink", "a3_pipe"} {
+					specials[n] = injectSpecialState(filepath.Join(dir, n))
+				}
+			}
 			var runs []injectRun
 			switch mode {
 			case "d":
@@ -1122,6 +1151,11 @@ func injectDirsCmd(args []string) error {
 			}
 			var obsAll []*injectObs
 			entry := 0
+			for n, was := range specials {
+				if now := injectSpecialState(filepath.Join(dir, n)); now != was {
+					what = append(what, fmt.Sprintf("special entry %s changed: was %s, is %s", n, was, now))
+				}
+			}
 			for i := range v.Ents {
 				e := &v.Ents[i]
 				orig := []byte(e.Conc.Src)
